@@ -2478,19 +2478,28 @@ func (te *TemplateEngine) replaceVariablesInTable(table *Table, data *TemplateDa
 
 	// 普通表格变量替换
 	for i := range table.Rows {
-		for j := range table.Rows[i].Cells {
-			for k := range table.Rows[i].Cells[j].Paragraphs {
-				err := te.replaceVariablesInParagraph(&table.Rows[i].Cells[j].Paragraphs[k], data)
-				if err != nil {
-					return err
-				}
+		if err := te.replaceVariablesInRow(&table.Rows[i], data); err != nil {
+			return err
+		}
+	}
+
+	return nil
+}
+
+// replaceVariablesInRow 在一行的所有单元格中替换变量（包括嵌套表格）
+func (te *TemplateEngine) replaceVariablesInRow(row *TableRow, data *TemplateData) error {
+	for j := range row.Cells {
+		for k := range row.Cells[j].Paragraphs {
+			err := te.replaceVariablesInParagraph(&row.Cells[j].Paragraphs[k], data)
+			if err != nil {
+				return err
 			}
-			// 递归处理嵌套表格
-			for k := range table.Rows[i].Cells[j].Tables {
-				err := te.replaceVariablesInTable(&table.Rows[i].Cells[j].Tables[k], data)
-				if err != nil {
-					return err
-				}
+		}
+		// 递归处理嵌套表格
+		for k := range row.Cells[j].Tables {
+			err := te.replaceVariablesInTable(&row.Cells[j].Tables[k], data)
+			if err != nil {
+				return err
 			}
 		}
 	}
@@ -2585,6 +2594,12 @@ func (te *TemplateEngine) renderTableTemplate(table *Table, data *TemplateData) 
 	if !exists || len(listData) == 0 {
 		// 删除模板行
 		table.Rows = append(table.Rows[:templateRowIndex], table.Rows[templateRowIndex+1:]...)
+		// 其余行中的普通变量照常替换
+		for i := range table.Rows {
+			if err := te.replaceVariablesInRow(&table.Rows[i], data); err != nil {
+				return err
+			}
+		}
 		return nil
 	}
 
@@ -2595,6 +2610,10 @@ func (te *TemplateEngine) renderTableTemplate(table *Table, data *TemplateData) 
 	// 保留模板行之前的行（深度克隆以保持样式）
 	for _, row := range table.Rows[:templateRowIndex] {
 		clonedRow := te.cloneTableRow(&row)
+		// 模板行以外的行中的普通变量照常替换
+		if err := te.replaceVariablesInRow(clonedRow, data); err != nil {
+			return err
+		}
 		newRows = append(newRows, *clonedRow)
 	}
 
@@ -2708,6 +2727,9 @@ func (te *TemplateEngine) renderTableTemplate(table *Table, data *TemplateData) 
 	// 保留模板行之后的行（深度克隆以保持样式）
 	for _, row := range table.Rows[templateRowIndex+1:] {
 		clonedRow := te.cloneTableRow(&row)
+		if err := te.replaceVariablesInRow(clonedRow, data); err != nil {
+			return err
+		}
 		newRows = append(newRows, *clonedRow)
 	}
 
